@@ -60,6 +60,14 @@ func VerifC14_Attrs() {
 	var picked []int
 	seen := map[string]bool{}
 	var src strings.Builder
+	// optionally start from a static attribute and a binding of the same name
+	pre := [][]int{nil, {7, 8}, {7, 9}, {10, 11}, {16, 15}, {8, 7}}[zzChoice("collision", 6)]
+	for _, k := range pre {
+		spec := zzC14Catalogue[k]
+		seen[spec.name] = true
+		picked = append(picked, k)
+		src.WriteString(" " + spec.src)
+	}
 	for a := 0; a < nAttrs; a++ {
 		k := zzChoice("attr", len(zzC14Catalogue)+1)
 		if k == len(zzC14Catalogue) {
